@@ -1058,7 +1058,7 @@ struct H {
     static rc::Gen<Case> gen() {
         using namespace rc;
         return gen::map(gen::tuple(gen::resize(300, gen::container<std::vector<uint8_t>>(gen::arbitrary<uint8_t>())), pbt::pick<int>({0, 0, 1, 1, 2, 2, 3, 3, 3, 4}),
-                                   pbt::pick<int>({1, 1, 2, 4}), pbt::pick<int>({0, 1, 1})),
+                                   pbt::pick<int>({1, 1, 2, 4, 3}), pbt::pick<int>({0, 1, 1})),
                         [](std::tuple<std::vector<uint8_t>, int, int, int> t) {
                             Case c;
                             c.bytes  = std::get<0>(t);
@@ -1071,7 +1071,7 @@ struct H {
     // coverage-guided mode: selector bytes, then entropy
     static bool from_fuzz(const uint8_t *d, size_t n, Case &c) {
         pbt::FuzzBytes f(d, n);
-        static const int w[] = {1, 2, 4, 1};
+        static const int w[] = {1, 2, 4, 3};
         uint8_t          s   = f.sel();
         c.width  = w[s & 3];
         c.target = (s >> 2) % 5;
